@@ -410,7 +410,8 @@ class Context(object):
         frame = self._stack[0]
         if attr in frame:
             del frame[attr]
-            del self._record[attr]
+            # -- NOTE: Record may be missing (removed by delete in inner scope).
+            self._record.pop(attr, None)
         else:
             msg = "'{0}' object has no attribute '{1}' at the current level"
             msg = msg.format(self.__class__.__name__, attr)
